@@ -320,7 +320,7 @@ func (b *GRPCBroker) Accept(id uint32) (net.Listener, error) {
 		// this ID: a knock acknowledged before that is refused by the muxer
 		// (and, on the plugin side, makes the main listener's Accept fail).
 		go func() {
-			err := b.listenForKnocks(id)
+			err := b.listenForKnocks(id, p)
 			if err != nil {
 				log.Printf("[ERR]: error listening for knocks, id: %d, error: %s", id, err)
 			}
@@ -434,8 +434,11 @@ func (b *GRPCBroker) Close() error {
 	return nil
 }
 
-func (b *GRPCBroker) listenForKnocks(id uint32) error {
-	p := b.getServerStream(id)
+// listenForKnocks answers knocks for the listener that Accept created
+// together with p. It must use that very entry: looking the ID up again could
+// run after the listener was closed (which deletes the entry) and would then
+// create a fresh one whose doneCh nobody ever closes.
+func (b *GRPCBroker) listenForKnocks(id uint32, p *gRPCBrokerPending) error {
 	for {
 		select {
 		case msg := <-p.ch:
